@@ -75,12 +75,20 @@ theorem decPayload_spec {S : Schema} {T : String → Bytes → Bytes} {r : Rec} 
     · cases h
   | ref ty lim =>
     simp only [hk] at h ⊢
-    obtain ⟨window, -, h⟩ := bind_eq_ok.mp h
-    obtain ⟨v', hd, h⟩ := bind_eq_ok.mp h
-    obtain ⟨s, -, h⟩ := bind_eq_ok.mp h
-    simp only [Except.ok.injEq, Prod.mk.injEq] at h
-    rw [← h.1]
-    exact ⟨window, hd⟩
+    have aux : ∀ window, (r.dec ty window >>= fun v' => r.size ty v' >>= fun s => (.ok (v', s) : R (Val × Nat))) = .ok (v, adv) →
+        FromDec r ty v := by
+      intro window h
+      obtain ⟨v', hd, h⟩ := bind_eq_ok.mp h
+      obtain ⟨s, -, h⟩ := bind_eq_ok.mp h
+      simp only [Except.ok.injEq, Prod.mk.injEq] at h
+      rw [← h.1]
+      exact ⟨window, hd⟩
+    cases lim with
+    | none => exact aux view h
+    | some l =>
+      simp only at h
+      obtain ⟨n, -, h⟩ := bind_eq_ok.mp h
+      exact aux _ h
   | barray sf =>
     simp only [hk] at h ⊢
     obtain ⟨n, hn, h⟩ := bind_eq_ok.mp h
